@@ -20,6 +20,8 @@ claimed = {
  "C14": "from_iter, map/filter/scan/take/skip, concat!, flatten over pull-mode puppets (each Pull answered inside the call or deferred), sinks sending at most one Pull per message received",
  "C15": "from_iter over iterators of length 0-3 and the unbounded one, 1-2 probe sinks, every pull/dispose pattern",
  "C16": "interval with periods 1-2, 1-3 subscriptions, mock Nurse+Timer with virtual clock, spawn failures Spawn/Closed",
+ "C18": "merge! and combine! of 2-3 members delivering from 2-3 threads (each a few data then Terminate, at most one failing), greetings done sequentially first: TLC explores every interleaving of the model at the granularity of the shared-state accesses (one label per access, the same points at which the code built with --cfg callbag_verif calls the scheduler hook) with monitor invariants; TLC-simulated schedules are replayed on the real code under the deterministic scheduler and the traces compared; preemption-bounded enumeration and random schedules on the real code, every trace judged by the TLA+ predicate",
+ "C19": "take(n), n in 1..3, over a puppet delivering from 2-3 threads and over merge! of two member threads; same method as C18",
  "C20": "all sequential families, sources, interval and pipelines replayed on three builds/configurations of the real code (feature off; on without subscriber; on with a TRACE subscriber); the three traces (including closure-invocation events) must be equal event for event",
  "C17": GEN + "; every expect/unwrap/panic! site is a branch of the model",
 }
@@ -37,7 +39,7 @@ for p in props:
           "level_claimed": {"category": "model_checking",
             "text": "Bounded-exhaustive. TLC enumerates every behaviour of the PlusCal model spec/Callbag.tla (one procedure branch per Rust closure, explicit call stack, conformant maximally nondeterministic environment) for: " + claimed[i] + ". Every model behaviour is replayed on the real closures; the real code's own decision tree is enumerated by DFS with the same bounds and the two behaviour sets must coincide (else DRIFT is reported); seeded random runs at larger bounds. Every recorded trace of the real code is judged by the TLA+ predicate of the property (spec/CallbagProps.tla) evaluated by TLC. A VIOLATION is only ever reported for a trace executed by the real code.",
             "design_ref": "DESIGN.md §2, §5, §7"},
-          "level_note": "Trusted: TLC, the PlusCal translator, the Json community module; the harness environment components (their logic is duplicated in PlusCal and compared trace by trace on every run); bounds per family are in the evidence file; sequential execution only for this property.",
+          "level_note": ("Trusted: TLC, the PlusCal translator, the Json community module; the harness environment components (their logic is duplicated in PlusCal and compared trace by trace on every run); bounds per family are in the evidence file; " + ("sequentially consistent interleavings at the granularity of the instrumented accesses (hooks in /repo behind --cfg callbag_verif); Acquire/Release reorderings are not explored." if i in ("C18","C19") else "sequential execution only for this property.")),
           "technique": "TLA+/PlusCal model checked with TLC + trace validation both ways (spec behaviours replayed on the code; code traces judged by TLA+ predicates)"
         })
 na = [{"property_id": p["id"], "reason": "check under construction (see DESIGN.md §7); not yet claimed"} for p in props if p['id'] not in claimed]
